@@ -102,7 +102,30 @@ func b2i(b bool) int {
 	return 0
 }
 
+// The basic-constraints fields of a record are the values PUT INTO the template the certificate was created from, not the
+// values ParseCertificate reports: the reference validator judges the PKI that was asked for, so a parser that loses a path
+// length shows up as a difference.  (Certificates without a noted template, e.g. of H cases: the parsed values.)
+var tmplBC sync.Map // *x509.Certificate (parsed) -> [3]int{bcvalid, isca, maxpathlen}
+
+func noteTmpl(parsed, t *x509.Certificate) {
+	v := [3]int{0, 0, 0}
+	if t.BasicConstraintsValid {
+		v[0], v[1], v[2] = 1, b2i(t.IsCA), t.MaxPathLen
+		if t.MaxPathLen == 0 && !t.MaxPathLenZero {
+			v[2] = -1 // documented: MaxPathLen 0 without MaxPathLenZero means "not set"
+		}
+		if t.MaxPathLen < -1 {
+			v[2] = -1
+		}
+	}
+	tmplBC.Store(parsed, v)
+}
+
 func record(idx int, c *x509.Certificate) string {
+	bc := [3]int{b2i(c.BasicConstraintsValid), b2i(c.IsCA), c.MaxPathLen}
+	if v, ok := tmplBC.Load(c); ok {
+		bc = v.([3]int)
+	}
 	ips := make([][]byte, len(c.IPAddresses))
 	for i, ip := range c.IPAddresses {
 		ips[i] = []byte(ip)
@@ -120,9 +143,9 @@ func record(idx int, c *x509.Certificate) string {
 		hexOrDash(c.AuthorityKeyId),
 		strconv.FormatInt(unix(c.NotBefore), 10),
 		strconv.FormatInt(unix(c.NotAfter), 10),
-		strconv.Itoa(b2i(c.BasicConstraintsValid)),
-		strconv.Itoa(b2i(c.IsCA)),
-		strconv.Itoa(c.MaxPathLen),
+		strconv.Itoa(bc[0]),
+		strconv.Itoa(bc[1]),
+		strconv.Itoa(bc[2]),
 		strconv.Itoa(int(c.KeyUsage)),
 		strList(c.PermittedDNSDomains),
 		strList(c.DNSNames),
@@ -466,6 +489,7 @@ func rebuild(abs []absCert, sig []string) []*x509.Certificate {
 		if err != nil {
 			return nil
 		}
+		noteTmpl(c, t)
 		certs[i] = c
 	}
 	return certs
@@ -1076,6 +1100,7 @@ func build(p *pkiT) []*x509.Certificate {
 		if err != nil {
 			panic(fmt.Sprint("ParseCertificate: ", err))
 		}
+		noteTmpl(c, p.specs[i].t)
 		certs[i] = c
 	}
 	return certs
@@ -1308,6 +1333,7 @@ func doBudget() (out []result) {
 		if err != nil {
 			panic(err)
 		}
+		noteTmpl(c, t)
 		return c
 	}
 	var certs []*x509.Certificate
